@@ -7,7 +7,6 @@
 package irfix
 
 import (
-	"errors"
 	"sync/atomic"
 	"time"
 
@@ -96,10 +95,11 @@ func NewClient(url string, key *keys.PrivateKey, proxy *util.Uint160, alphabet f
 		return nil, err
 	}
 	if proxy != nil {
-		if alphabet == nil {
-			return nil, errors.New("irfix: alphabet source required with notary")
+		opts := []client.NotaryOption{client.WithProxyContract(*proxy)}
+		if alphabet != nil { // nil: the live committee of the chain, as in production
+			opts = append(opts, client.WithAlphabetSource(alphabet))
 		}
-		err = c.EnableNotarySupport(client.WithProxyContract(*proxy), client.WithAlphabetSource(alphabet))
+		err = c.EnableNotarySupport(opts...)
 		if err != nil {
 			c.Close()
 			return nil, err
